@@ -5,6 +5,18 @@ HERE = os.path.dirname(os.path.abspath(__file__))
 ALL = ["C%02d" % i for i in range(1, 21)]
 
 CLAIMED = {
+ "C02": dict(
+  text="Theorems (Coq, closed under the global context) over the conversion model PcmConv.v/Fp.v: integer<->integer moves keep the most significant bits "
+       "(widening zero-pads, narrowing truncates, U8 = S8 + 128) for every width and every code / int32 / short; normalised double reads return exactly "
+       "value/2^(w-1) for every stored code of every width; lrint is the nearest integer; with clipping every finite input is stored inside the range "
+       "(never wraps); G.711 through the four types agrees with the 16-bit codec for all 256 codes and float writes never index outside the tables. "
+       "Tie: the model is compared with sf_write_T/sf_read_T on in-memory RAW files for every encoding x type x switch setting, exhaustively over all "
+       "2^8/2^16 codes and all 2^16 shorts, boundary grids + PRNG for 24/32-bit and floating point (3.8 million evaluations per quick run).",
+  note="Trusted: Coq kernel, the hand-written model (tied by the exhaustive/boundary correspondence on every run), extraction, harness, the float model Fp.v "
+       "(validated against the hardware on every run). Not proved: saturation at exactly x>=1 and monotonicity of the float scaling (covered by the "
+       "correspondence grids only); USE_SSE2 build variant is modelled (same psf_lrint result) but not separately compiled.",
+  technique="Coq proof over an executable conversion model + exhaustive differential correspondence through the public API",
+  design_ref="DESIGN.md section 5 C02"),
  "C20": dict(
   text="Theorems (Coq, closed under the global context): the G.711 tables regenerated from the source compute the Recommendation's "
        "expansion/compression for all 256 codes and all 65536 shorts (complete evaluation in the kernel, lifted to forall), "
